@@ -23,6 +23,9 @@ def generate(rng, tier):
         base_svma = rng.choice([0, 0x100000000, 0x400000])
         fdes = []
         pos = base_svma + 0x1000
+        if idx % 3 == 2:
+            base_svma = 0
+            pos = 0              # the first function starts at stated address 0 (relocatable objects, kernels, firmware)
         for i in range(nf):
             if rng.chance(1, 3):
                 pos += rng.choice([1, 2, 0x10, 0x100])
@@ -39,25 +42,26 @@ def generate(rng, tier):
             ba = 0x10000000 * (j + 1)
             s.module_dwarf("M%d" % j, ba, ba + span, ba, base_svma, pres, fdes, rng, shuffle=True,
                            n_cies=(2 + idx % 2) if mixed else rng.range(1, 3), pcrel=(pres != "debug" and rng.chance(1, 2)),
-                           mixed=mixed,
+                           mixed=mixed, macho_names=(idx % 5 == 3),
                            hdr_enc=rng.choice(["abs8", "gnu"]) if base_svma < 0x80000000 else "abs8")
             bases.append(ba)
         s.mem("S", [(0x7000 + 8 * i, 0x50000 + i) for i in range(250)] + [(0x7800, 0x7900), (0x7808, 0x66666)])
         s.add("new U")
         for j in range(3):
             s.add("add U M%d" % j)
-        pts = set([0xfff, 0x1000, pos - base_svma, pos - base_svma + 1, pos - base_svma + 0x80])
+        pts = set([0, 1, 0xfff, 0x1000, pos - base_svma, pos - base_svma + 1, pos - base_svma + 0x80])
         for f in (fdes if nf <= 60 else [rng.choice(fdes) for _ in range(60)] + fdes[:3] + fdes[-3:]):
             st = f["start"] - base_svma
             for a in (st - 1, st, st + 1, st + f["len"] - 1, st + f["len"], st + f["len"] + 1):
-                pts.add(a)
+                if a >= 0:
+                    pts.add(a)
         def cover(rel):
             for i, f in enumerate(fdes):
                 if f["start"] - base_svma <= rel < f["start"] - base_svma + f["len"]:
                     return i
             return None
         lo, hi = (fdes[0]["start"] - base_svma if fdes else 0x1000), pos - base_svma
-        for rel in sorted(pts):
+        for rel in sorted(p_ for p_ in pts if p_ < span):          # inside the mapped range of the images
             for kind in ("ip", "ra"):
                 lines = []
                 sp = 0x7000 + gran * rng.range(0, 2)
